@@ -1,0 +1,103 @@
+//! Verification hook (compiled only with `--cfg libp2p_verif`): thin public wrappers around
+//! the crate-private mplex [`Codec`] so that an external harness can drive the production
+//! `Encoder`/`Decoder` implementations. Child module of `codec` because the stream id fields
+//! and the `listener` constructors are private to that module. Nothing here re-implements
+//! codec logic: frames are converted field by field into a public mirror type.
+
+use asynchronous_codec::{Decoder, Encoder};
+use bytes::{Bytes, BytesMut};
+use libp2p_core::Endpoint;
+
+use super::{Codec, Frame, LocalStreamId, RemoteStreamId};
+
+/// Kind of an mplex frame (mirror of the variants of the private `Frame`).
+#[derive(Debug, Clone, Copy, PartialEq, Eq)]
+pub enum Kind {
+    Open,
+    Data,
+    Close,
+    Reset,
+}
+
+/// Public mirror of `Frame<LocalStreamId>` / `Frame<RemoteStreamId>`.
+#[derive(Debug, Clone, PartialEq, Eq)]
+pub struct VFrame {
+    pub kind: Kind,
+    pub num: u64,
+    /// role stored in the stream id (`true` = `Endpoint::Dialer`)
+    pub dialer: bool,
+    /// payload (empty for everything but `Data`)
+    pub data: Vec<u8>,
+}
+
+/// A decoded frame: the remote id as decoded, and the same id after the production
+/// `RemoteStreamId::into_local()`.
+#[derive(Debug, Clone, PartialEq, Eq)]
+pub struct Decoded {
+    pub remote: VFrame,
+    pub local_num: u64,
+    pub local_dialer: bool,
+}
+
+pub const MAX_FRAME_SIZE: usize = super::MAX_FRAME_SIZE;
+
+/// The production codec.
+pub struct VCodec(Codec);
+
+impl Default for VCodec {
+    fn default() -> Self {
+        Self::new()
+    }
+}
+
+impl VCodec {
+    pub fn new() -> Self {
+        VCodec(Codec::new())
+    }
+
+    /// `Encoder::encode` of the production codec on `Frame<LocalStreamId>`.
+    pub fn encode(&mut self, f: &VFrame, dst: &mut BytesMut) -> std::io::Result<()> {
+        let stream_id = LocalStreamId {
+            num: f.num,
+            role: if f.dialer {
+                Endpoint::Dialer
+            } else {
+                Endpoint::Listener
+            },
+        };
+        let frame = match f.kind {
+            Kind::Open => Frame::Open { stream_id },
+            Kind::Data => Frame::Data {
+                stream_id,
+                data: Bytes::from(f.data.clone()),
+            },
+            Kind::Close => Frame::Close { stream_id },
+            Kind::Reset => Frame::Reset { stream_id },
+        };
+        self.0.encode(frame, dst)
+    }
+
+    /// `Decoder::decode` of the production codec.
+    pub fn decode(&mut self, src: &mut BytesMut) -> std::io::Result<Option<Decoded>> {
+        Ok(self.0.decode(src)?.map(|frame| {
+            let rid: RemoteStreamId = frame.remote_id();
+            let lid: LocalStreamId = rid.into_local();
+            let (kind, data) = match frame {
+                Frame::Open { .. } => (Kind::Open, Vec::new()),
+                Frame::Data { data, .. } => (Kind::Data, data.to_vec()),
+                Frame::Close { .. } => (Kind::Close, Vec::new()),
+                Frame::Reset { .. } => (Kind::Reset, Vec::new()),
+            };
+            Decoded {
+                remote: VFrame {
+                    kind,
+                    num: rid.num,
+                    dialer: rid.role == Endpoint::Dialer,
+                    data,
+                },
+                local_num: lid.num,
+                local_dialer: lid.role == Endpoint::Dialer,
+            }
+        }))
+    }
+}
